@@ -122,7 +122,16 @@ def assign_case(ts, srcs, in_closure=False):
     if any(x.startswith("ident(") for x in srcs):
         ss.append(p.localfunction("ident", p.func(["v"], p.block([p.emit([p.str("ident"), p.id("v")]), p.ret([p.id("v")])]))))
     st = p.assign([_target(p, t) for t in ts], [_source(p, s, 40 + i) for i, s in enumerate(srcs)])
-    if in_closure:
+    if in_closure == "params":
+        # the local targets are PARAMETERS of the function the statement runs in (1, 2 or 3 of them, so that
+        # each of a, b, c is the last parameter in some variant), with and without a further local above them
+        nps = 1 + (len(ts) + len(srcs)) % 3
+        ps = ["a", "b", "c"][:nps]
+        rest = [x for x in ("a", "b", "c") if x not in ps]
+        body = ([p.local(rest, [p.num(70 + i) for i in range(len(rest))])] if rest else []) + [st, p.emit([p.str("inside"), p.id("a"), p.id("b"), p.id("c")]), p.ret([p.id(x) for x in ps])]
+        ss.append(p.localfunction("run", p.func(ps, p.block(body), va=va, ud=va)))
+        ss.append(p.emit([p.call(p.id("run"), [p.num(21 + i) for i in range(nps)] + ([p.dots()] if va else []))]))
+    elif in_closure:
         body = p.block([st, p.ret([p.id("a")])])
         ss.append(p.localfunction("run", p.func([], body, va=va, ud=va)))
         ss.append(p.emit([p.call(p.id("run"), [p.dots()] if va else [])]))
@@ -156,6 +165,12 @@ def gen_assign(rng, n, exhaustive2=False):
                      (["t[a]", "a", "b"], ["b", "c", "a"])):
         for cl in (False, True):
             out.append(assign_case(ts, srcs, cl))
+    # every source kind assigned to a parameter (single target: the compiler stores straight into the register)
+    for tgt in ("a", "b", "c"):
+        for src in SOURCES:
+            out.append(assign_case([tgt], [src], "params"))
+        out.append(assign_case([tgt, "ga"], ["(f())", tgt], "params"))
+        out.append(assign_case(["t.x", tgt], [tgt, "(f())"], "params"))
     # more values than targets: the surplus expressions are still evaluated, and before any store
     for last in ("a", "b", "c", "ga", "t.x", "ua"):
         for first in ("a", "b", "t[1]", "ga"):
